@@ -185,6 +185,56 @@ theorem mulDekker_prog (hr : IsRN q r) (f : Fmt) (cb : Nat) {s : ℕ} (hC : (dec
     add_comm (xh * yl), rn_id hr fT2, rn_id hr fC, rn_id hr fT3, rn_id hr fD,
     show xl * yl + (xh * yh - h + xh * yl + xl * yh) = x * y - h by rw [fS]; ring, rn_id hr fE]
 
+theorem evalQ_mulDekkerFix (f : Fmt) (r : ℚ → ℚ) (x y C Lm : ℚ) (cb lb zb : Nat) (hC : (decode f cb).toRat? = some C)
+    (hL : (decode f lb).toRat? = some Lm) (hZ : (decode f zb).toRat? = some 0) :
+    evalQ f r (mulDekkerFix cb lb zb) mulDekkerFixOuts [x, y] =
+      (let xh := r (r (C * x) - r (r (C * x) - x))
+       let xl := r (x - xh)
+       let yh := r (r (y * C) - r (r (y * C) - y))
+       let yl := r (y - yh)
+       let h := r (y * x)
+       let pp := r (yh * xh)
+       let t1 := r (pp + -h)
+       let t2 := r (r (yl * xh) + t1)
+       let t3 := r (t2 + r (xl * yh))
+       some [h, if (q2b (decide (Lm < (if pp < 0 then -pp else pp)))) ≠ 0 then 0 else r (r (xl * yl) + t3)]) := by
+  simp [evalQ, evalNodesQ, evalNodeQ, mulDekkerFix, mulDekkerFixOuts, hC, hL, hZ]
+
+/-- `fpa.mul_dekker(scale=False, fix_overflow=True)`: when the product of the high halves does not exceed
+the largest finite value (no overflow), the `select`s keep Dekker's exact pair. -/
+theorem mulDekkerFix_prog (hr : IsRN q r) (f : Fmt) (cb lb zb : Nat) {s : ℕ} (Lm : ℚ) (hC : (decode f cb).toRat? = some (2 ^ s + 1))
+    (hL : (decode f lb).toRat? = some Lm) (hZ : (decode f zb).toRat? = some 0)
+    (h2s : q.p ≤ 2 * s) (h2s2 : 2 * s ≤ q.p + 2) (hs2 : s + 2 ≤ q.p)
+    {kx ky ex ey : ℤ} (hkx1 : 2 ^ (q.p - 1) ≤ |kx|) (hkx2 : |kx| < 2 ^ q.p) (hky1 : 2 ^ (q.p - 1) ≤ |ky|) (hky2 : |ky| < 2 ^ q.p)
+    (hex : q.emin ≤ ex) (hey : q.emin ≤ ey) (he : q.emin ≤ ex + ey) (x y : ℚ) (hx : x = (kx : ℚ) * 2 ^ ex) (hy : y = (ky : ℚ) * 2 ^ ey)
+    (hno : |r (r (r ((2 ^ s + 1) * y) - r (r ((2 ^ s + 1) * y) - y)) * r (r ((2 ^ s + 1) * x) - r (r ((2 ^ s + 1) * x) - x)))| ≤ Lm) :
+    evalQ f r (mulDekkerFix cb lb zb) mulDekkerFixOuts [x, y] = some [r (x * y), x * y - r (x * y)] := by
+  rw [evalQ_mulDekkerFix f r _ _ _ Lm cb lb zb hC hL hZ]
+  have hs1 : 1 ≤ s := by omega
+  have hsp : s < q.p := by omega
+  obtain ⟨a1, a2, a3, a4, a5⟩ := veltkamp hr hs1 hsp hkx1 hkx2 hex
+  obtain ⟨b1, b2, b3, b4, b5⟩ := veltkamp hr hs1 hsp hky1 hky2 hey
+  obtain ⟨fA, fB, fC, fD, fT1, fT2, -, fT3, fE, fS⟩ :=
+    dekker_core hr h2s h2s2 hs2 hkx1 hkx2 hky1 hky2 he a1 a2 a3 a4 a5 b1 b2 b3 b4 b5
+  simp only [← hx, ← hy] at fA fB fC fD fT1 fT2 fT3 fE fS
+  simp only
+  rw [mul_comm y (2 ^ s + 1), mul_comm y x]
+  generalize r (r ((2 ^ s + 1) * x) - r (r ((2 ^ s + 1) * x) - x)) = xh at *
+  generalize r (r ((2 ^ s + 1) * y) - r (r ((2 ^ s + 1) * y) - y)) = yh at *
+  generalize r (x - xh) = xl at *
+  generalize r (y - yh) = yl at *
+  generalize r (x * y) = h at *
+  have hcond : ¬ (Lm < (if r (yh * xh) < 0 then -r (yh * xh) else r (yh * xh))) := by
+    have : (if r (yh * xh) < 0 then -r (yh * xh) else r (yh * xh)) = |r (yh * xh)| := by
+      split
+      · rw [abs_of_neg ‹_›]
+      · rw [abs_of_nonneg (not_lt.mp ‹_›)]
+    rw [this]; exact not_lt.mpr hno
+  simp only [hcond, decide_false, q2b, Bool.false_eq_true, if_false, ne_eq, not_true_eq_false]
+  rw [mul_comm yh xh, rn_id hr fA, ← sub_eq_add_neg, rn_id hr fT1, mul_comm yl xh, rn_id hr fB,
+    add_comm (xh * yl), rn_id hr fT2, rn_id hr fC, rn_id hr fT3, rn_id hr fD,
+    show xl * yl + (xh * yh - h + xh * yl + xl * yh) = x * y - h by rw [fS]; ring, rn_id hr fE]
+
 /-- `utils.multiply_dekker` (Veltkamp form of the splitter, the other order of accumulation). -/
 theorem mulDekkerU_prog (hr : IsRN q r) (f : Fmt) (cb : Nat) {s : ℕ} (hC : (decode f cb).toRat? = some (2 ^ s + 1))
     (h2s : q.p ≤ 2 * s) (h2s2 : 2 * s ≤ q.p + 2) (hs2 : s + 2 ≤ q.p)
